@@ -11,99 +11,104 @@ import GqlModel.ArgMap
   compatible kind, absent variables take their defaults; and it returns an error rather than values
   whenever a supplied value cannot conform."
 
-  `Conforms s t v` is the strict reading.  The pinned implementation is more lenient at six
-  enumerated points; each is a field of `Leniency`, so that
-    * `Conforms   = conformsWith Leniency.strict`,
-    * `Coercible  = conformsWith Leniency.coercion` — what a SUPPLIED value may look like and still
-      be coercible (GraphQL input coercion wraps a single value into a list),
-    * the theorems about the legacy code are stated with `Leniency.legacy`, and every field that
-      differs from `strict` has a kernel-checked counterexample in GqlProofs/Props/C14.lean.
+    `Conforms s t v`   the value `v` conforms to the declared type `t` (what a RESULT must satisfy);
+    `Coercible s t v`  the SUPPLIED value `v` can conform to `t`: `Conforms`, except that a list
+                       position may hold a single (non-list) value, which input coercion wraps.
 
-  "Compatible kinds" of the built-in scalars (strict table, GraphQL input coercion on JSON-like Go
-  values):
-    Int      any signed/unsigned integer kind; a float kind holding an integral value (what
-             encoding/json produces for `1`); a json.Number whose text is an integer
-    Float    any float / integer kind; a json.Number whose text is a float
-    String   string
+  COMPATIBLE KIND TABLE (C14).  The property asks that a built-in scalar holds "a value of a
+  compatible kind"; the Go kinds that count as compatible with each built-in scalar are
+    Int      every integer kind; every float kind (a JSON number decodes to float64, fractional ones
+             included); a value of a string kind (`string`, `json.Number`) whose text parses as an
+             integer (`strconv.ParseInt(·, 10, 64)`)
+    Float    every float kind; every integer kind; a value of a string kind whose text parses as
+             a float (`strconv.ParseFloat(·, 64)`)
+    String   every string kind (`json.Number` has kind string)
     Boolean  bool
-    ID       string; any integer kind; integral float; json.Number with integer text
-  A custom scalar accepts every non-null value.
+    ID       every integer kind; every string kind
+  An enum holds a declared value: a value of a string kind whose text IS the name of one of the
+  enum's values (exactly, byte for byte).  A custom scalar accepts every non-null value.
+
+  Two deviations from the plain reading are expressible through `Reading` and are used ONLY where
+  stated:
+    * `typenameKey` — the exception for the known finding R14c (the implementation tolerates and
+      hands on the undeclared key `__typename` in input objects).  `ConformsExceptTypename` /
+      `CoercibleExceptTypename` grant it; `Conforms` / `Coercible` do not.
+    * `strictNumStr`, `strictFracInt`, `strictJsonNumber` — the STRICT reading of GraphQL input
+      coercion for built-in scalars (no numeric strings for Int/Float, no fractional float for Int,
+      no json.Number for String/ID/enums).  It demands more than C14 states; the check only COUNTS
+      the returned values that fail it (evidence, never a violation), and no theorem uses it.
 -/
 namespace Gql
 open Gql.Strconv
 
-structure Leniency where
-  /-- R14b: an enum value is matched with `strings.EqualFold` instead of exactly -/
-  enumFold : Bool := false
-  /-- R14c: an input object may carry the undeclared key `__typename` -/
+structure Reading where
+  /-- R14c exception: an input object may carry the undeclared key `__typename` -/
   typenameKey : Bool := false
-  /-- `Int` / `Float` positions accept STRINGS whose text parses as a number -/
-  numericStrings : Bool := false
-  /-- an `Int` position accepts any float (1.5, NaN, ±Inf) -/
-  fractionalInt : Bool := false
-  /-- `String` / `ID` / enum positions accept a json.Number (a number of reflect kind String) -/
-  jsonNumberAsString : Bool := false
-  /-- a list position may hold a non-list value that fits the innermost named type
-      (for supplied values: the single-value-to-list coercion; for results: R14d, repaired — the
-      theorems about results use `Leniency.afterR14d`) -/
-  flatNested : Bool := false
+  /-- supplied values: a list position may hold a single non-list value (wrapped by coercion) -/
+  single : Bool := false
+  /-- informational strict reading: `Int` / `Float` positions reject STRINGS that spell a number -/
+  strictNumStr : Bool := false
+  /-- informational strict reading: an `Int` position rejects a float that is not integral (1.5, NaN, ±Inf) -/
+  strictFracInt : Bool := false
+  /-- informational strict reading: `String` / `ID` / enum positions reject a json.Number; `Int` /
+      `Float` positions still accept one whose text parses -/
+  strictJsonNumber : Bool := false
   deriving Repr, DecidableEq
 
-def Leniency.strict : Leniency := {}
-def Leniency.coercion : Leniency := { flatNested := true }
-def Leniency.legacy : Leniency :=
-  { enumFold := true, typenameKey := true, numericStrings := true, fractionalInt := true,
-    jsonNumberAsString := true, flatNested := true }
-/-- the five leniencies that remain for RESULTS once R14d is repaired (coerced list items are
-    stored back): every list position of a result holds a list -/
-def Leniency.afterR14d : Leniency := { Leniency.legacy with flatNested := false }
+/-- the reading of the property text -/
+def Reading.spec : Reading := {}
+/-- … for a supplied value (single value where a list is expected) -/
+def Reading.supplied : Reading := { single := true }
+/-- … with the exception for R14c -/
+def Reading.specT : Reading := { typenameKey := true }
+def Reading.suppliedT : Reading := { typenameKey := true, single := true }
+/-- GraphQL's strict input coercion of built-in scalars (informational) -/
+def Reading.strict : Reading := { strictNumStr := true, strictFracInt := true, strictJsonNumber := true }
 
-
-def intOK (L : Leniency) : GoVal → Bool
+def intOK (L : Reading) : GoVal → Bool
   | .int _ _ => true
   | .uint _ _ => true
-  | .float _ t => L.fractionalInt || floatTextIntegral t
+  | .float _ t => !L.strictFracInt || floatTextIntegral t
   | .jsonNumber t => parseIntOk t
-  | .str t => L.numericStrings && parseIntOk t
+  | .str t => !L.strictNumStr && parseIntOk t
   | _ => false
 
-def floatOK (L : Leniency) : GoVal → Bool
+def floatOK (L : Reading) : GoVal → Bool
   | .float _ _ => true
   | .int _ _ => true
   | .uint _ _ => true
   | .jsonNumber t => parseFloatOk t
-  | .str t => L.numericStrings && parseFloatOk t
+  | .str t => !L.strictNumStr && parseFloatOk t
   | _ => false
 
-def stringOK (L : Leniency) : GoVal → Bool
+def stringOK (L : Reading) : GoVal → Bool
   | .str _ => true
-  | .jsonNumber _ => L.jsonNumberAsString
+  | .jsonNumber _ => !L.strictJsonNumber
   | _ => false
 
 def boolOK : GoVal → Bool
   | .bool _ => true
   | _ => false
 
-def idOK (L : Leniency) : GoVal → Bool
+def idOK (L : Reading) : GoVal → Bool
   | .str _ => true
   | .int _ _ => true
   | .uint _ _ => true
-  | .float _ t => floatTextIntegral t
-  | .jsonNumber t => L.jsonNumberAsString || parseIntOk t
+  | .jsonNumber t => !L.strictJsonNumber || parseIntOk t
   | _ => false
 
-def enumNameOK (L : Leniency) (d : Definition) (x : Bytes) : Bool :=
-  d.enumValues.any (fun ev => ev.name = x) || (L.enumFold && d.enumValues.any (fun ev => equalFoldAscii x ev.name))
+/-- `x` is (exactly) the name of a declared value of the enum `d` -/
+def enumNameOK (d : Definition) (x : Bytes) : Bool := d.enumValues.any (fun ev => ev.name = x)
 
-def enumOK (L : Leniency) (d : Definition) : GoVal → Bool
-  | .str x => enumNameOK L d x
-  | .jsonNumber x => L.jsonNumberAsString && enumNameOK L d x
+def enumOK (L : Reading) (d : Definition) : GoVal → Bool
+  | .str x => enumNameOK d x
+  | .jsonNumber x => !L.strictJsonNumber && enumNameOK d x
   | _ => false
 
 def isBuiltinScalarName (n : Name) : Bool := (builtinOf n).isSome
 
 /-- a non-null value that is neither a list nor a map, against the named type `n` -/
-def leafOK (L : Leniency) (s : Schema) (n : Name) (v : GoVal) : Bool :=
+def leafOK (L : Reading) (s : Schema) (n : Name) (v : GoVal) : Bool :=
   match s.type? n with
   | none => false
   | some d =>
@@ -125,9 +130,9 @@ def isCustomScalar (s : Schema) (n : Name) : Bool :=
   | none => false
 
 /-- the named type a non-list value is checked against -/
-def leafName (L : Leniency) : GType → Option Name
+def leafName (L : Reading) : GType → Option Name
   | .named n _ _ => some n
-  | .list e _ _ => if L.flatNested then some e.name else none
+  | .list e _ _ => if L.single then some e.name else none
 
 /-- a field is required when its type is non-null and it has no default -/
 def FieldDef.required (f : FieldDef) : Bool := f.type.nonNull && f.default.isNone
@@ -136,7 +141,7 @@ def requiredPresent (fields : List FieldDef) (kvs : GoFields) : Bool :=
   fields.all fun f => !f.required || kvs.contains f.name
 
 mutual
-  def conformsWith (L : Leniency) (s : Schema) : GType → GoVal → Bool
+  def conformsWith (L : Reading) (s : Schema) : GType → GoVal → Bool
     | t, .nil => !t.nonNull                                           -- non-null positions never hold null
     | t, .slice _ xs =>
       match t with
@@ -157,10 +162,10 @@ mutual
       match leafName L t with
       | none => false
       | some n => leafOK L s n v
-  def allConform (L : Leniency) (s : Schema) (e : GType) : GoVals → Bool
+  def allConform (L : Reading) (s : Schema) (e : GType) : GoVals → Bool
     | .nil => true
     | .cons v rest => conformsWith L s e v && allConform L s e rest
-  def fieldsDeclared (L : Leniency) (s : Schema) (fields : List FieldDef) : GoFields → Bool
+  def fieldsDeclared (L : Reading) (s : Schema) (fields : List FieldDef) : GoFields → Bool
     | .nil => true
     | .cons k v rest =>
       (match fields.find? (fun f => f.name = k) with
@@ -169,16 +174,36 @@ mutual
       && fieldsDeclared L s fields rest
 end
 
-def conformsB (s : Schema) (t : GType) (v : GoVal) : Bool := conformsWith .strict s t v
-def coercibleB (s : Schema) (t : GType) (v : GoVal) : Bool := conformsWith .coercion s t v
+def conformsB (s : Schema) (t : GType) (v : GoVal) : Bool := conformsWith .spec s t v
+def coercibleB (s : Schema) (t : GType) (v : GoVal) : Bool := conformsWith .supplied s t v
 
 /-- C14: the value `v` conforms to the declared type `t` -/
 def Conforms (s : Schema) (t : GType) (v : GoVal) : Prop := conformsB s t v = true
 /-- C14: the supplied value `v` can be coerced to the declared type `t` -/
 def Coercible (s : Schema) (t : GType) (v : GoVal) : Prop := coercibleB s t v = true
+/-- `Conforms`, except that input objects may carry the undeclared key `__typename` (R14c) -/
+def ConformsExceptTypename (s : Schema) (t : GType) (v : GoVal) : Prop := conformsWith .specT s t v = true
+/-- `Coercible`, except that input objects may carry the undeclared key `__typename` (R14c) -/
+def CoercibleExceptTypename (s : Schema) (t : GType) (v : GoVal) : Prop := conformsWith .suppliedT s t v = true
 
 instance (s : Schema) (t : GType) (v : GoVal) : Decidable (Conforms s t v) := by unfold Conforms; infer_instance
 instance (s : Schema) (t : GType) (v : GoVal) : Decidable (Coercible s t v) := by unfold Coercible; infer_instance
+instance (s : Schema) (t : GType) (v : GoVal) : Decidable (ConformsExceptTypename s t v) := by unfold ConformsExceptTypename; infer_instance
+instance (s : Schema) (t : GType) (v : GoVal) : Decidable (CoercibleExceptTypename s t v) := by unfold CoercibleExceptTypename; infer_instance
+
+mutual
+  /-- no map inside the value has the key `__typename` -/
+  def noTypenameB : GoVal → Bool
+    | .slice _ xs => noTypenameItemsB xs
+    | .map _ kvs => noTypenameFieldsB kvs
+    | _ => true
+  def noTypenameItemsB : GoVals → Bool
+    | .nil => true
+    | .cons v r => noTypenameB v && noTypenameItemsB r
+  def noTypenameFieldsB : GoFields → Bool
+    | .nil => true
+    | .cons k v r => k ≠ str "__typename" && noTypenameB v && noTypenameFieldsB r
+end
 
 /- ============================ C15: ArgSpec ============================ -/
 
@@ -337,6 +362,15 @@ def DefaultsLexed (vdefs : List VarDef) : Prop :=
 def DefaultsSupplied (vdefs : List VarDef) (vars : VarMap) : Prop :=
   ∀ n d, findVarDef vdefs n = some d → d.default.isSome = true → vars.contains n = true
 
+/-- C15, the hypothesis about variable links.  `Value.VariableDefinition` of a variable used inside
+    a FRAGMENT is set by the walker to the definition of the LAST operation walked that spreads the
+    fragment (`linked`), which need not be the operation being executed (`opDefs`).  The links
+    agree with the operation when every variable has the same default in both — in particular in
+    a document with a single operation, or when no other operation that spreads the same fragment
+    declares a variable of the same name with a different default. -/
+def LinksAgree (linked opDefs : List VarDef) : Prop :=
+  ∀ n, (findVarDef linked n).bind (·.default) = (findVarDef opDefs n).bind (·.default)
+
 /-- a constant literal (defaults): variables do not occur -/
 def constSpec (v : Value) : Option GoVal := literalSpec (fun _ => none) .nil v
 
@@ -398,10 +432,13 @@ namespace Gql
 /- ---- hypotheses of the C14 theorems ---- -/
 
 mutual
-  /-- REPRESENTATION INVARIANT of `GoVal` (not a restriction on Go values): `.nil` — the nil
-      interface — occurs only as an element of an `interface{}`-typed container.  A Go value of a
-      concrete element type (`[]int`, `[]map[string]interface{}`, `map[string]string` …) is never
-      the nil interface; every `GoVal` the wire codec produces from a real Go value satisfies it. -/
+  /-- REPRESENTATION INVARIANT of `GoVal` (not a restriction on Go values):
+        (1) `.nil` — the nil interface — occurs only as an element of an `interface{}`-typed
+            container.  A Go value of a concrete element type (`[]int`, `[]map[string]interface{}`,
+            `map[string]string` …) is never the nil interface;
+        (2) the keys of a map are pairwise different (`GoFields` is an association list).
+      Every `GoVal` the wire codec produces from a real Go value satisfies it; typed slices and
+      typed maps of every element type are inside it. -/
   def wfB : GoVal → Bool
     | .slice e xs => wfItemsB (e = .iface) xs
     | .map e kvs => wfFieldsB (e = .iface) kvs
@@ -411,44 +448,7 @@ mutual
     | .cons v r => (nilOK || !v.isNil) && wfB v && wfItemsB nilOK r
   def wfFieldsB (nilOK : Bool) : GoFields → Bool
     | .nil => true
-    | .cons _ v r => (nilOK || !v.isNil) && wfB v && wfFieldsB nilOK r
-end
-
-mutual
-  /-- hypothesis of C14_total_partial: the value is built from nil, scalars, slices and
-      `map[string]interface{}` maps, where
-        (1) NO TYPED MAP occurs (`map[string]string`, `map[string]int` …): `SetMapIndex` panics
-            when a coerced field value (`"1"` ↦ `[]string{"1"}`) is not assignable to the map's
-            element type — still present in the repaired tree, outside the JSON-like domain;
-        (2) null items occur only in `[]interface{}` slices — the representation invariant `wfB`
-            restricted to slices (a typed slice cannot hold the nil interface in Go at all).
-      Since the repair of R14a, null list items are allowed (before: no slice could hold one). -/
-  def safeB : GoVal → Bool
-    | .slice e xs => safeItemsB (e = .iface) xs
-    | .map e kvs => e = .iface && safeFieldsB kvs
-    | _ => true
-  def safeItemsB (nilOK : Bool) : GoVals → Bool
-    | .nil => true
-    | .cons v r => (nilOK || !v.isNil) && safeB v && safeItemsB nilOK r
-  def safeFieldsB : GoFields → Bool
-    | .nil => true
-    | .cons _ v r => safeB v && safeFieldsB r
-end
-
-mutual
-  /-- every container is `[]interface{}` / `map[string]interface{}` — in particular everything
-      `encoding/json` decodes into an `interface{}` (with or without `UseNumber`), and everything
-      literal conversion (`Value.Value`) builds.  Null items and null entries are allowed. -/
-  def jsonLikeB : GoVal → Bool
-    | .slice e xs => e = .iface && jsonLikeItemsB xs
-    | .map e kvs => e = .iface && jsonLikeFieldsB kvs
-    | _ => true
-  def jsonLikeItemsB : GoVals → Bool
-    | .nil => true
-    | .cons v r => jsonLikeB v && jsonLikeItemsB r
-  def jsonLikeFieldsB : GoFields → Bool
-    | .nil => true
-    | .cons _ v r => jsonLikeB v && jsonLikeFieldsB r
+    | .cons k v r => !r.contains k && (nilOK || !v.isNil) && wfB v && wfFieldsB nilOK r
 end
 
 /-- the named type exists in the schema and is an input type -/
@@ -458,5 +458,14 @@ def InputTypeOK (s : Schema) (t : GType) : Prop :=
 /-- every field of every input object has an input type that exists (part of C07_loaded_closed) -/
 def InputsClosed (s : Schema) : Prop :=
   ∀ n d, s.type? n = some d → d.kind = .inputObject → ∀ f ∈ d.fields, InputTypeOK s f.type
+
+/-- the fields of an input object have pairwise different names (part of the loader's checks) -/
+def InputFieldsNodup (s : Schema) : Prop :=
+  ∀ n d, s.type? n = some d → d.kind = .inputObject → (d.fields.map (·.name)).Nodup
+
+/-- enum value names do not start with `<` (they are Names): `reflect.Value.String()` of a
+    non-string value is `<int Value>` …, which therefore is no enum value -/
+def EnumNamesPlain (s : Schema) : Prop :=
+  ∀ n d, s.type? n = some d → ∀ ev ∈ d.enumValues, ev.name.head? ≠ some 60
 
 end Gql
